@@ -57,6 +57,12 @@ of `Model/Reactive.lean` (the model and its theorems are untouched):
 * `rieff` — `RenderEffect::new_isomorphic`: as `reff`.
 * `drop <memo>` — dispose / drop a memo that no node reads (checked; it also becomes a leaf): the real memo stays
   behind as a dead entry in its sources' subscriber lists; the model's node simply is never read again.
+* `scope` / `endscope` / `cleanupscope <k>` — a child owner; signals and memos defined inside it are created in the
+  reference-counted flavour (ArcRwSignal, ArcMemo, ArcSignal wrappers), which by contract outlive the owner they were
+  created under.  The model has no owners for signals and memos: scopes are transparent (`cleanupscope` is a step that
+  changes nothing).  Only `sig` / `memo` / `memoc` / `memoh` may be defined inside a scope; scopes do not nest.
+* `disposew <id>` — a fresh `Signal::from(node)` wrapper is created and disposed: a wrapper is a handle, not the
+  node; nothing changes.
 * `oncl` — every effect run registers one `on_cleanup`; C02 lines then end in ` cl=<node>:<calls>,…` = for every effect,
   one call per run of this op that superseded an earlier run, plus one when it is disposed after having run.
 * `imeff <expr>` — `ImmediateEffect::new`: no task; the real effect runs inside the notification that reaches it.
@@ -96,6 +102,10 @@ structure DState where
   oncl : Bool := false
   /-- dropped memos -/
   dropped : List Nat := []
+  /-- scopes: currently inside one; number opened; cleaned up -/
+  inScope : Bool := false
+  nScopes : Nat := 0
+  cleaned : List Nat := []
   /-- run counts and liveness when the current op started (for `cl=`) -/
   runs0 : List Nat := []
   alive0 : List Bool := []
@@ -428,8 +438,16 @@ def doSet (m : Mode) (d : DState) (id : Nat) (v : Int) : DState × String :=
   let d := flush { d with s := (step d.prog d.s (.set id v)).1 }
   (d, afterOp m d none)
 
+/-- inside a scope only signals and memos can be defined -/
+def scopeGuard (d : DState) (ws : List String) : List String :=
+  match ws with
+  | kw :: _ =>
+    if d.inScope && (kw == "ssig" || kw == "slice" || kw == "sel" || kw == "eff" || kw == "reff" || kw == "imeff")
+    then ["bad-op"] else ws
+  | [] => ws
+
 def stepLine (m : Mode) (d : DState) (line : String) : DState × String :=
-  match normKw (stripHandler d (words line)) with
+  match scopeGuard d (normKw (stripHandler d (words line))) with
   | ["case", n] => ({}, s!"case {n}")
   | ["mode", _] => (d, "ok")
   | ["wrap", _] => (d, "ok")   -- reads go through Signal::from / Signal::derive: transparent for the model
@@ -521,8 +539,31 @@ def stepLine (m : Mode) (d : DState) (line : String) : DState × String :=
         (d, if m == .c02 then "ok " ++ afterOp m d none else if m == .c09 then afterOp m d none else "ok")
       else (d, "bad-op")
     | _, _ => (d, "bad-op")
+  | ["cleanupscope", k] =>
+    match k.toNat? with
+    | some k =>
+      if k < d.nScopes && !d.cleaned.contains k && !(d.inScope && k + 1 == d.nScopes) then
+        let d := clearLog { d with cleaned := d.cleaned ++ [k] }
+        (d, afterOp m d none)
+      else (d, "bad-op")
+    | none => (d, "bad-op")
+  | ["disposew", id] =>
+    match id.toNat? with
+    | some id =>
+      let ok := !d.dropped.contains id && !d.fields.contains id && !d.keys.contains id &&
+        !(d.slices.any fun (x : Nat × Nat) => x.1 == id) &&
+        (match d.prog[id]? with | some (.sig _) => true | some (.memo _) => true | _ => false)
+      if ok then
+        let d := clearLog d
+        (d, afterOp m d none)
+      else (d, "bad-op")
+    | none => (d, "bad-op")
   | [op] =>
     if op == "oncl" then ({ d with oncl := true }, "ok")
+    else if op == "scope" then
+      if d.inScope then (d, "bad-op") else ({ d with inScope := true, nScopes := d.nScopes + 1 }, "ok")
+    else if op == "endscope" then
+      if d.inScope then ({ d with inScope := false }, "ok") else (d, "bad-op")
     else if op == "pauseall" || op == "resumeall" then
       -- `Owner::pause` / `resume` on the root owner reaches every effect's owner
       let d := clearLog d
